@@ -353,6 +353,17 @@ def pick_host_bit(nm: bytes, bits: str) -> bool:
     return bits[2 * int(lib_ace(nm)) + int(lib_ip(strip_dot(nm)))] == "1"
 
 
+def hello_end_offset(wire: bytes, dtls: bool) -> int:
+    """offset just after the record that completes the (unfragmented) ClientHello message — harness record walk.
+    Any shorter prefix of the wire cannot contain the hello: an independent reader says 'incomplete' there."""
+    r, acc = Rd(wire), b""
+    while True:
+        r.take(11 if dtls else 3); acc += r.vec(2)
+        if dtls:
+            if len(acc) >= 12 and len(acc) >= 12 + int.from_bytes(acc[9:12], "big"): return r.p
+        elif len(acc) >= 4 and len(acc) >= 4 + int.from_bytes(acc[1:4], "big"): return r.p
+
+
 def first_fragment_flight(wire: bytes) -> bytes:
     """a DTLS flight made of the first handshake fragment of `wire` only (header as sent), in one record"""
     r = Rd(wire); r.take(11); rec = Rd(r.vec(2))
@@ -791,6 +802,12 @@ class Check(PropertyCheck):
         h = int(hashlib.sha256(wire).hexdigest()[:8], 16)
         n = len(wire)
         pts = {0, n // 2, max(0, n - 1), h % (n + 1), (h >> 8) % (n + 1), min(n, 5), min(n, 13)}
+        if case["kind"] in ("built", "real") and self.n_frags(case) < 2:
+            try:
+                e = hello_end_offset(wire, bool(case["dtls"]))
+                pts |= {max(0, e - 1), e, min(n, e + 1)}         # just before / at / after the completing record's end
+            except NotWellFormed:
+                pass
         return sorted(pts)
 
     def impl(self, case):
@@ -862,6 +879,19 @@ class Check(PropertyCheck):
             for tag, r in self.truth_views(obs):
                 tf = truth_fails(truth, r)
                 if tf: fails.append(f"truth{tag}: " + "; ".join(tf))
+            # every prefix: before the record that completes the hello ends an independent reader has no hello yet
+            # ("reports an incomplete hello"), from there on it has exactly this hello. (Lenient branch: not applied to
+            # fragmented DTLS flights, whose reading is finding F-C13a.)
+            if self.n_frags(case) < 2:
+                end = hello_end_offset(wires[0], bool(case["dtls"]))
+                pts = list(zip(self.tie_prefixes(case, wires[0]), obs["pre"])) + [(i, r) for i, r in obs.get("prefix_all_bad", [])]
+                for i, r in pts:
+                    if i < end:
+                        if r.get("o") != "incomplete":
+                            fails.append(f"truth(prefix {i}<{end}): {r.get('o')} although the hello's last record ends at {end}"); break
+                    else:
+                        tf = truth_fails(truth, r)
+                        if tf: fails.append(f"truth(prefix {i}>={end}): " + "; ".join(tf)); break
         # "Splitting a valid ClientHello across any number of TLS records and TCP segments changes none of these results"
         if obs["inc"] != obs["whole"][0]:
             fails.append(f"segmentation: fed in segments {case.get('cuts')} gives {str(obs['inc'])[:150]}, in one piece {str(obs['whole'][0])[:150]}")
